@@ -114,16 +114,19 @@ func concOps() []concOp {
 }
 
 func engineConc(rep *Report) {
-	subs := subjectsForShard()
+	subs := allSubjects()
 	rounds := perType(6, 120)
 	const G = 16
 	ops := concOps()
-	for _, s := range subs {
+	for ti, s := range subs {
 		tn := string(s.FullName)
 		rep.Types = append(rep.Types, tn)
 		d := s.Zero.ProtoReflect().Descriptor()
 		for round := 0; round < rounds; round++ {
 			round := round
+			if !mineCase(ti, round) {
+				continue
+			}
 			guardCase(rep, "C11", "conc", tn, round, func() {
 				seed := caseSeed(*flagSeed, tn, round, "conc")
 				o := defaultGen()
